@@ -156,6 +156,11 @@ def classify(gen: Generated, result, diags, other, rc):
                 if o[0] in ("ghost", "clause", "canary"):
                     item = o[1]
                     break
+        if site is None:
+            for o, prim, label in origins:
+                if o[0] == "ghost":
+                    site = f"proof hint at `{o[2]}`"
+                    break
         if item is None and clause is None:
             # failure inside template text (a lemma / spec of ours): machinery problem, not a violation
             undecided.append(dict(reason="template-proof", message=msg, rendered=d.get("rendered", "")[:4000]))
